@@ -405,6 +405,46 @@ def run_condition_copy(ctx: Ctx) -> None:
                    f"{'SpatialTransformer' if wrapper else 'SpatialTransform'}.condition({what})", th)
 
 
+def run_linked_reset(ctx: Ctx) -> None:
+    """C09 'resets ... and link creation': resetting through a linked transform leaves no stale buffered field on either side's next view."""
+    prog = ctx.prog
+    fR = prog.func("deepali.spatial.parametric", "ParametricTransform.reset_parameters")
+    ctx.fn(fR)
+    ctx.rule("T6x.linked-reset", "for DDF / SVF / FFD / SVFFD with buffered displacement fields: after t2.link_(t1) (and, for the velocity models, "
+                                 "t2 = t1.inverse(link=True)) and an evaluation of both, t2.reset_parameters() — and likewise t1.reset_parameters() "
+                                 "followed by update() of the linked side — is followed by tensor() / disp() of the transform it was called on that "
+                                 "equal the field recomputed by an explicit update() (the reset state), not the field buffered before the reset")
+    from .t67_transforms import NONRIGID
+    for mod, cls, kw in NONRIGID:
+        for how in ("link_",) + (("inverse(link=True)",) if "Velocity" in cls else ()):
+            def th(mod=mod, cls=cls, kw=kw, how=how):
+                env = TEnv(ctx, 2)
+                it = env.it
+                t1 = env.make(mod, cls, dict(kw), "buffer")
+                it.method(t1, "update")
+                if how == "link_":
+                    t2 = env.make(mod, cls, dict(kw), "buffer")
+                    it.method(t2, "link_", t1)
+                else:
+                    t2 = it.method(t1, "inverse", link=True)
+                it.method(t2, "update")
+                before = it.method(t2, "tensor").clone()
+                if all(to_rat(v).is_zero() for v in before.flat()):
+                    raise AnalysisError(f"T6x.linked-reset: the linked {cls} evaluates to zero before the reset (adaptor)")
+                it.method(t2, "reset_parameters")
+                got_t = it.method(t2, "tensor").clone()
+                got_d = it.method(t2, "disp").clone()
+                it.method(t2, "update")
+                want_t = it.method(t2, "tensor")
+                want_d = it.method(t2, "disp")
+                if not teq(got_t, want_t) or not teq(got_d.plain() if hasattr(got_d, "plain") else got_d, want_d.plain() if hasattr(want_d, "plain") else want_d):
+                    stale = teq(got_t, before)
+                    return False, (f"{cls} linked by {how}: tensor() / disp() right after reset_parameters() of the linked transform "
+                                   f"{'still return the field buffered before the reset' if stale else 'differ from the field recomputed by update()'}")
+                return True, ""
+            _guard(ctx, "T6x.linked-reset", f"{cls}:{how}", fR, f"class={cls} linked by {how}", th)
+
+
 def run_fit(ctx: Ctx) -> None:
     """DisplacementFieldTransform.fit(flow) with tensor parameters is exact: the transform then *is* that flow, whatever it buffered before."""
     prog = ctx.prog
